@@ -361,7 +361,7 @@ def _placeholders(ctx: Ctx) -> dict[str, list[tuple[FuncInfo, ast.AST]]]:
 
 
 def r54(rep: Report, ctx: Ctx) -> None:
-    rep.rule("R5.4", "every placeholder has a sink before the writer", 6)
+    rep.rule("R5.4", "every placeholder has a sink before the writer", 7)
     entry = ctx.func("pv_to_puml_string")
     cfg = ctx.cfg(entry)
     ph = _placeholders(ctx)
@@ -404,6 +404,7 @@ def r54(rep: Report, ctx: Ctx) -> None:
         if nid is not None:
             closures.setdefault(nid, set()).update(
                 ctx.cg.closure([c.qualname for c in site.callees]))
+    _sinks_not_swallowed(rep, ctx, entry, sinks)
     for p in sorted(ph):
         if p == "LOOP_EVENT_TYPE":
             _loop_placeholder(rep, ctx)
@@ -442,6 +443,48 @@ def r54(rep: Report, ctx: Ctx) -> None:
                    detail="called from a function that recurses over "
                           ".sub_graph" if rec else "top-level graph only: "
                           "placeholders inside loop bodies survive")
+
+
+def _sinks_not_swallowed(rep: Report, ctx: Ctx, entry: FuncInfo,
+                         sinks: dict[str, list[FuncInfo]]) -> None:
+    """A sink that cannot resolve its placeholder raises (e.g. a break point
+    beneath an AND); the conversion must then fail as a whole.  A handler
+    that completes normally around a call that reaches a sink lets the
+    writer see the unresolved placeholder (seed C05-u: `:DUMMY_BREAK;`)."""
+    sq = {s.qualname for ss in sinks.values() for s in ss}
+    sq = ctx.cg.closure(sq) if sq else set()
+    bad = []
+    n_try = 0
+    for q in sorted(ctx.cg.closure([entry])):
+        fi = ctx.index.functions.get(q)
+        if fi is None:
+            continue
+        for t in ast.walk(fi.node):
+            if not isinstance(t, ast.Try):
+                continue
+            n_try += 1
+            inside = {id(x) for st in t.body for x in ast.walk(st)}
+            reach: set[str] = set()
+            for site in ctx.cg.sites_in(fi):
+                if id(site.node) in inside:
+                    reach |= ctx.cg.closure(
+                        [c.qualname for c in site.callees])
+            if not (reach & sq):
+                continue
+            for h in t.handlers:
+                last = h.body[-1] if h.body else None
+                if not isinstance(last, ast.Raise):
+                    bad.append((fi, h))
+    rep.ob("R5.4", "a sink that fails aborts the conversion: no handler "
+           "that completes normally encloses a call reaching a sink", not bad,
+           fi=bad[0][0] if bad else entry,
+           node=bad[0][1] if bad else entry.node,
+           detail=(f"handler '{unparse(bad[0][1])[:70]}' in "
+                   f"{bad[0][0].short} swallows a failure of a placeholder "
+                   "sink; the writer then emits the placeholder as an "
+                   "activity" if bad else
+                   f"{n_try} try statement(s) in the closure of "
+                   f"{entry.name}, none around a sink"))
 
 
 def _tolerated_guard(ctx: Ctx, entry: FuncInfo, cfg, through: set[int],
